@@ -39,5 +39,5 @@ BOUNDED_ONLY = ("bounded stand-in only so far (labelled bounded, never counted a
 for _pid in ["C01", "C02", "C03", "C04", "C05", "C07", "C08", "C09", "C10", "C12", "C13", "C14", "C15", "C16", "C17", "C18", "C19", "C20"]:
     reg(_pid, "other", BOUNDED_ONLY)
 
-FIX_COMMITS = ["c8eaaa2", "39f21c5", "00e445f", "cea0f99", "62af5fc", "d016e8e", "a2233a1", "3bbb417", "bdac312", "35f4fa5"]
+FIX_COMMITS = ['c8eaaa2', '39f21c5', '00e445f', 'cea0f99', '62af5fc', 'd016e8e', 'a2233a1', '3bbb417', 'bdac312', '35f4fa5', 'bcaad45', '42d03b2', 'fd4d6b2', '756db6e', 'abbd602', 'a62df76']
 NOT_YET = {}
